@@ -139,12 +139,9 @@ def gen_generic(rng, d, nslots=3, nev=14, ops=None, cats=CATS, init=2):
         elif op == "Histogram":
             if d["k"] not in ("Bin", "SparselyBin"):
                 continue
-            a, t = rng.choice(live), rng.choice(slots)
+            a, t = rng.choice(live), nslots + 1     # (a scratch slot: its descriptor differs from the pool's)
             out.append({"op": "Histogram", "t": t, "a": a})
-            out.append({"op": "Drop", "s": t})      # its descriptor differs from the pool's: not used further
-            if t in live:
-                live.remove(t)
-            mutable.discard(t)
+            out.append({"op": "Drop", "s": t})
         elif op in ("StackBuild", "FractionBuild"):
             # these keep (some of) their arguments inside the result by design: build, observe, drop
             t = nslots + 1
